@@ -55,7 +55,7 @@ def plans_for(rng, tier):
 
 def cases(tier, seed):
     rng = random.Random(f"C03/{seed}")
-    nmax, count = (7, 1200) if tier == "quick" else (9, 12000)
+    nmax, count = (7, 3500) if tier == "quick" else (9, 20000)
     cl = [("rand", 4), ("gadget", 4), ("inputs", 3), ("dense-neg", 1), ("rand-wide", 1), ("overlap-maa", 0.3)]
     nets = gen.corpus() + [gen.exh2(i) for i in range(0, 256, 1 if tier != "quick" else 3)]
     nets += [gen.model_net(f) for f in gen.models_up_to(9 if tier == "quick" else 10)]
